@@ -98,6 +98,17 @@ class C18(Prop):
             waxis = rng.below(len(wshape))
             W = wshape[waxis]
             w1 = float_pool(5, W, rng, fet)
+            if g % 3 == 0 and W >= 2:
+                # observations masked out by a zero weight may be anything (infinite, NaN, or so far from the running mean
+                # that the deviation overflows): the per-axis and the whole-array routine must treat them alike
+                zpos = rng.below(W)
+                w1[zpos] = 0.0
+                huge = 3.0e38 if fet == "f32" else 1.7e308
+                for fp_, ln in enumerate(lane_positions(wshape, waxis)):
+                    if rng.chance(2, 3):
+                        wd[ln[zpos]] = rng.choice([float("inf"), float("-inf"), float("nan"), huge, -huge])
+                        if rng.chance(1, 2) and W >= 3:
+                            wd[ln[(zpos + 1) % W]] = -huge if wd[ln[zpos]] == huge else huge * 0.5
             lw = lay1(W, rng.choice([1, 2, -1]), 0, 0)
             la = rng.choice(zoo(wshape, rng, 2))
             dd = enc_vals(fet, [0.5])[0]
